@@ -343,7 +343,12 @@ W_ExactlyOne_Kad(x) ==
                                         \/ y.o.kind = "Dropped"                 \* neither value nor error
                                         \/ x.ev \in {"Call", "Cancel"}          \* before any reply / out of the blue
                                         \/ x.g2.qOf[y.caller] # x.q             \* on another query's event
-                                        \/ x.q \in x.pq }}                      \* while its query goes on
+                                        \/ x.q \in x.pq                         \* while its query goes on
+                                        \* at a REPLY, although no version has this caller's quorum: the peers are
+                                        \* still answering, so neither "not enough copies" nor a split ("the full
+                                        \* set of versions") can be told yet
+                                        \/ (x.ev = "Found" /\ ~\E v \in Versions(x.g2, x.q, x.g2.cfg[y.caller].key) :
+                                               Cardinality(Agree(x.g2, x.q, v, x.g2.cfg[y.caller].key)) >= QV(x.g2.cfg[y.caller].quorum)) }}
   \cup {c \in x.g2.called \ x.g2.cancelled :
                             /\ c \notin x.g2.got                                \* left without an outcome:
                             /\ \/ x.g2.qOf[c] \notin x.pq                       \*   its query is gone
